@@ -78,9 +78,10 @@ func writeEvidence(b builds, cfg tierCfg, oi oracleInfo, agg *simAgg, eq, cmp in
 		"corpus_calls_used":            agg.callsUsed,
 		"corpus_calls_over_step_bound": oi.dropped,
 		"corpus_calls_removed_because_they_crash_or_hang_even_alone": len(oi.excluded),
-		"oracle_batch_calls":            oi.batch,
-		"oracle_isolated_process_calls": oi.iso,
-		"builds_equal_signature":        fmt.Sprintf("%d of %d (seed, process) pairs gave the identical run-signature chain in the -race and the plain build", eq, cmp),
+		"oracle_batch_calls":               oi.batch,
+		"oracle_soak_calls_in_one_process": oi.soak,
+		"oracle_isolated_process_calls":    oi.iso,
+		"builds_equal_signature":           fmt.Sprintf("%d of %d (seed, process) pairs gave the identical run-signature chain in the -race and the plain build", eq, cmp),
 		"bounds": map[string]any{"max_tasks": 8, "max_ops_per_task": 6, "max_expression_bytes": 200, "max_steps_per_call": cfg.maxStep,
 			"runs_per_process": cfg.runs, "processes_per_build": cfg.procs},
 		"components": map[string]string{
